@@ -955,3 +955,56 @@ pub fn gen_c16(rng: &mut Rng, d: &mut Dist, _idx: u64) -> Vec<String> {
     }
     out
 }
+
+/// C07: boundary lattice per partition committed in {none, e-1, e, e+1, mid, l-1, l, l+1} x (e = l | e < l) x fallback x
+/// group set/unset x storage, over multi-topic / multi-partition / multi-broker assignments.
+pub fn gen_c07(rng: &mut Rng, d: &mut Dist, _idx: u64) -> Vec<String> {
+    let cl = Cluster::random(rng, 3, false);
+    let mut out = cl.setup_lines();
+    let group = rng.chance(4, 5);
+    let storage = *rng.pick(&["zk", "kafka"]);
+    for t in &cl.topics {
+        for p in 0..t.leaders.len() {
+            let e = *rng.pick(&[0i64, 5, 100, 1 << 33]);
+            let l = if rng.chance(1, 4) { e } else { e + 1 + rng.below(20) as i64 };
+            out.push(format!("EARLIEST {} {} {}", h(&t.name), p, e));
+            out.push(format!("HW {} {} {}", h(&t.name), p, l));
+            let choice = rng.below(9);
+            let c: Option<i64> = match choice {
+                0 => None,
+                1 => Some(e - 1),
+                2 => Some(e),
+                3 => Some(e + 1),
+                4 => Some((e + l) / 2),
+                5 => Some(l - 1),
+                6 => Some(l),
+                7 => Some(l + 1),
+                _ => Some(0),
+            };
+            let names = ["none", "e-1", "e", "e+1", "mid", "l-1", "l", "l+1", "zero"];
+            bump(d, &format!("committed-{}", names[choice as usize]));
+            if let Some(c) = c {
+                if c != -1 {
+                    out.push(format!("COMMITTED {} {} {} {}", h("grp"), h(&t.name), p, c));
+                }
+            }
+        }
+    }
+    let fb = match rng.below(5) {
+        0 | 1 => "earliest".to_string(),
+        2 | 3 => "latest".to_string(),
+        _ => format!("time:{}", rng.below(50)),
+    };
+    bump(d, &format!("fallback-{}", fb.split(':').next().unwrap()));
+    bump(d, if group { "group-set" } else { "group-unset" });
+    let mut opts: Vec<String> = cl.topics.iter().map(|t| format!("topic={}", h(&t.name))).collect();
+    opts.push(format!("fallback={}", fb));
+    if group {
+        opts.push(format!("group={}", h("grp")));
+        opts.push(format!("storage={}", storage));
+    }
+    rng.shuffle(&mut opts);
+    out.push(format!("OP consumer_create hosts={} {}", cl.bootstrap(), opts.join(" ")));
+    out.push("OP poll".into());
+    out
+}
